@@ -7,7 +7,7 @@ using namespace QXmpp::Private;
 static const char TAGS[][C02_L] = { "enable", "enabled", "resume", "resumed", "failed", "a", "r", "item-not-found", "unexpected-request", "text", "zz", "enabl" };
 static const char NSS[][C02_L] = { "", "urn:xmpp:sm:3", "urn:ietf:params:xml:ns:xmpp-stanzas", "urn:xmpp:sm:2", "x:y" };
 static const char ATTRS[][C02_A] = { "resume", "max", "id", "location", "h", "previd", "zz" };
-static const char VALS[][C02_A] = { "true", "false" };
+static const char VALS[][C02_A] = { "true", "false", "zzzz" };
 C02_VOCAB(V, TAGS, NSS, ATTRS, VALS)
 
 #define SM_ENTRY(fn, T, N1, N2, WARM) extern "C" void fn() { c02_warm_QXmppStreamManagement(); WARM; bool admitted = false; { C02Tree<N1, N2> t; t.build(V); C02_FIXPOINT_OPT(T, t.root.el, admitted) } \
